@@ -141,7 +141,8 @@ class World(object):
                 return (rng.choice(SEG_POLICIES), rng.choice(SEG_POLICIES))
         else:
             seg = tuple(seg)
-        self.net = SimNet(sim, lat=tuple(cfg.get("lat", (0.0005, 0.003))), connect_timeout=cfg.get("connect_timeout", 30.0), seg=seg)
+        self.net = SimNet(sim, lat=tuple(cfg.get("lat", (0.0005, 0.003))), connect_timeout=cfg.get("connect_timeout", 30.0), seg=seg,
+                          close_lat=tuple(cfg.get("close_lat", (0.0, 0.001))))
         self.cluster = SimCluster(sim, self.net, self.res)
         for n in range(1, cfg.get("brokers", 1) + 1):
             b = self.cluster.add_broker(n)
@@ -253,6 +254,12 @@ class World(object):
                 self.sim.at(f["t"], self._cut_conns, f.get("node"))
             elif act == "add_partitions":
                 self.sim.at(f["t"], self._add_partitions, f["topic"], f["n"])
+            elif act == "delete_topic":
+                self.sim.at(f["t"], cl.delete_topic, f["topic"])
+            elif act == "shrink_topic":
+                self.sim.at(f["t"], cl.shrink_topic, f["topic"])
+            elif act == "hide_broker":
+                self.sim.at(f["t"], cl.hide_broker, f["node"])
             else:
                 raise HarnessError("unknown timed fault %r" % (act,))
 
@@ -293,6 +300,7 @@ class World(object):
             if not b.up:
                 cl.broker_up(b.node)
             b.frozen_meta = None
+            b.hidden = False
         alive = sorted(b.node for b in cl.alive())
         for t in cl.topics.values():
             for p in t.partitions.values():
